@@ -69,8 +69,13 @@ def main():
             if h in name:
                 pth = os.path.join(ROOT, ".cache", name)
                 shutil.rmtree(pth, ignore_errors=True) if os.path.isdir(pth) else os.remove(pth)
-        with open(res_path, "w") as f:
-            json.dump(results, f, indent=1, sort_keys=True)
+        import fcntl
+        with open(res_path + ".lock", "w") as lk:       # several runners may work on disjoint subsets in parallel
+            fcntl.flock(lk, fcntl.LOCK_EX)
+            merged = json.load(open(res_path)) if os.path.exists(res_path) else {}
+            merged[sid] = results[sid]
+            with open(res_path, "w") as f:
+                json.dump(merged, f, indent=1, sort_keys=True)
     return 0
 
 
